@@ -461,6 +461,42 @@ type runResult struct {
 	PanicStep  int
 	InterOK    bool   // every slot of every intermediate result was finite
 	FrameBreak string // non-empty: a register other than the receiver changed
+	Helper     string // non-empty: GetGradient/GetHessian/CopyGradient/CopyHessian disagree with the slots
+}
+
+// checkHelpers compares the gradient / Hessian helper functions of scalar.go
+// with the derivative slots read one by one.
+func checkHelpers(x ConstScalar) string {
+	n := x.GetN()
+	g := GetGradient(Float64Type, x)
+	H := GetHessian(Float64Type, x)
+	g2 := NullDenseVector(Real64Type, n)
+	H2 := NullDenseMatrix(Real64Type, n, n)
+	if err := CopyGradient(g2, x); err != nil {
+		return "CopyGradient: " + err.Error()
+	}
+	if err := CopyHessian(H2, x); err != nil {
+		return "CopyHessian: " + err.Error()
+	}
+	if g.Dim() != n {
+		return fmt.Sprintf("GetGradient has dimension %d, scalar stores %d partial derivatives", g.Dim(), n)
+	}
+	if r, c := H.Dims(); r != n || c != n {
+		return fmt.Sprintf("GetHessian has dimensions %dx%d, scalar stores %d partial derivatives", r, c, n)
+	}
+	for i := 0; i < n; i++ {
+		d := x.GetDerivative(i)
+		if !sameFloat(g.ConstAt(i).GetFloat64(), d) || !sameFloat(g2.ConstAt(i).GetFloat64(), d) {
+			return fmt.Sprintf("gradient helper differs from GetDerivative(%d)", i)
+		}
+		for j := 0; j < n; j++ {
+			h := x.GetHessian(i, j)
+			if !sameFloat(H.ConstAt(i, j).GetFloat64(), h) || !sameFloat(H2.ConstAt(i, j).GetFloat64(), h) {
+				return fmt.Sprintf("Hessian helper differs from GetHessian(%d,%d)", i, j)
+			}
+		}
+	}
+	return ""
 }
 
 // run executes the program and observes the last receiver.
@@ -521,6 +557,9 @@ func run(in inst, n int, desc []regDesc, hist []step, point []float64) (res runR
 			}
 			if k == len(hist)-1 {
 				res.Obs = o
+				if in.Order == 2 && in.Mode == "generic" && in.Storage == "dense" {
+					res.Helper = checkHelpers(m.regs[s.R])
+				}
 			}
 		})
 		if msg != "" {
